@@ -1,3 +1,3 @@
 (* C15 - entry point of the proofs *)
 Require Export UV.C15.ProofsJson UV.C15.ProofsTree UV.C15.ProofsRun UV.C15.ProofsWalk UV.C15.ProofsOut
-               UV.C15.ProofsChrome UV.C15.ProofsSample UV.C15.ProofsFlame.
+               UV.C15.ProofsChrome UV.C15.ProofsSample UV.C15.ProofsBound UV.C15.ProofsFlame UV.C15.ProofsDoc UV.C15.ProofsGraphF UV.C15.ProofsBT.
